@@ -234,6 +234,9 @@ func (e *engine) Generate(seed uint64, idx int, tier string, avoid []harness.Fin
 				pool = append(pool, f)
 			}
 			c.Ops = append(c.Ops, Op{K: "hadd", Form: f})
+			if r.Pct(8) {
+				c.Ops = append(c.Ops, Op{K: "hedit", A: r.Intn(4)})
+			}
 			if r.Pct(10) {
 				c.Ops = append(c.Ops, Op{K: "hadd", Form: f}) // immediate duplicate
 			}
@@ -322,6 +325,19 @@ func toForm(lines []string) repl.Form {
 	return f
 }
 
+// edForm puts the lines into the world's reused editor buffers.
+func (w *world) edForm(lines []string) repl.Form {
+	for len(w.edBuf) < len(lines) {
+		w.edBuf = append(w.edBuf, make([]rune, 0, 64))
+	}
+	f := make(repl.Form, len(lines))
+	for i, l := range lines {
+		w.edBuf[i] = append(w.edBuf[i][:0], []rune(l)...)
+		f[i] = w.edBuf[i]
+	}
+	return f
+}
+
 func stashForms(s *repl.Stash) formList {
 	n := s.Size()
 	out := make(formList, 0, n)
@@ -343,6 +359,10 @@ type world struct {
 	sess *simos.Session
 	// counters
 	steps int
+	// edBuf are the editor's line buffers: like the real editor the harness
+	// reuses them for the next form after handing a form to Add, so an Add
+	// that keeps references to the caller's runes is found out
+	edBuf [][]rune
 	// pending crash to arm in the next incarnation (death during start-up)
 	armK     int
 	armAfter bool
@@ -495,9 +515,24 @@ func (w *world) apply(op Op) (crashed bool, fail string) {
 	}()
 	switch op.K {
 	case "hadd":
-		repl.TheHistory.Add(toForm(op.Form))
+		repl.TheHistory.Add(w.edForm(op.Form))
 	case "sadd":
-		repl.TheStash.Add(toForm(op.Form))
+		repl.TheStash.Add(w.edForm(op.Form))
+	case "hedit":
+		// recall the A-th most recent entry as the editor does (a private
+		// copy), change it in place and enter it
+		if f := repl.TheHistory.Nth(op.A); len(f) > 0 {
+			d := f.Dup()
+			for i := range d {
+				for j := range d[i] {
+					if d[i][j] == 'a' || d[i][j] == 'o' || d[i][j] == 'e' {
+						d[i][j] = 'z'
+					}
+				}
+			}
+			d[len(d)-1] = append(d[len(d)-1], []rune(" ;edited")...)
+			repl.TheHistory.Add(d)
+		}
 	case "hclear", "sclear":
 		name := "clear-history"
 		if op.K == "sclear" {
@@ -719,6 +754,19 @@ func (w *world) runClean(ops []Op, from int, m *model, snaps *[]snapshot, a *acc
 			if m != nil {
 				m.add(op.Form, before.hist)
 				if v := m.checkHist(after.hist, fmt.Sprintf("op %d: the session after add", i)); v != nil {
+					return v
+				}
+			}
+		case "hedit":
+			if m != nil && op.A < len(before.hist) {
+				orig := before.hist[len(before.hist)-1-op.A]
+				ed := make([]string, len(orig))
+				for k, l := range orig {
+					ed[k] = strings.NewReplacer("a", "z", "o", "z", "e", "z").Replace(l)
+				}
+				ed[len(ed)-1] += " ;edited"
+				m.add(ed, before.hist)
+				if v := m.checkHist(after.hist, fmt.Sprintf("op %d: the session after editing a recalled entry", i)); v != nil {
 					return v
 				}
 			}
